@@ -106,7 +106,6 @@ func (c20) Case(c *core.Ctx) {
 	r := c.R
 	defer ResetDefaults()
 	mxj.XMLEscapeChars(true)
-	c.Eval()
 	doc := xt.Render(r, c20gen.Gen(r, 1+r.Intn(4)), xt.Style{})
 	if r.Intn(4) == 0 {
 		doc = append([]byte(xt.Prolog(r)), doc...)
@@ -135,6 +134,7 @@ func (c20) Case(c *core.Ctx) {
 	}
 	cmp := func(fn string, ok bool, det core.D) {
 		c.Count("comparisons")
+		c.Eval()
 		if !ok {
 			if det == nil {
 				det = core.D{}
